@@ -1,1 +1,625 @@
-// shared generators
+//! Shared generators: segment pool, words (text), a typed rule AST with printer, and tape-driven
+//! word-directed rule generation. Every random choice is a `Tape` draw.
+
+use crate::core::Tape;
+use crate::model::*;
+use serde::{Deserialize, Serialize};
+use std::sync::OnceLock;
+
+// ------------------------------------------------------------------------------------------------
+// Segment pool
+
+#[derive(Clone, Debug)]
+pub struct PSeg { pub text: String, pub seg: MSeg }
+
+pub struct Pool {
+    /// frequent plain phones (words and rules are mostly built from these so that rules fire)
+    pub common: Vec<PSeg>,
+    /// all 365 bases
+    pub bases: Vec<PSeg>,
+    /// every parseable base + one diacritic whose value differs from the base
+    pub dia1: Vec<PSeg>,
+}
+
+const COMMON: &[&str] = &["p", "t", "k", "b", "d", "ɡ", "m", "n", "s", "z", "h", "l", "r", "j", "w", "a", "e", "i", "o", "u", "ə", "ʔ", "f", "x", "ŋ", "ʃ"];
+
+/// applies a diacritic the way the manual describes: prerequisites must hold, payload features are set
+pub fn apply_dia(s: &MSeg, d: &Dia) -> Option<MSeg> {
+    for (f, b) in &d.prereq_feats { if !s.matches(*f, *b) { return None } }
+    for (n, b) in &d.prereq_nodes { if s.node(*n).is_some() != *b { return None } }
+    let mut r = *s;
+    for (n, b) in &d.payload_nodes { if *b { if r.node(*n).is_none() { r.set_node(*n, Some(0)) } } else { r.set_node(*n, None) } }
+    for (f, b) in &d.payload_feats { r.set_feat(*f, *b); }
+    Some(r)
+}
+
+pub fn pool() -> &'static Pool {
+    static P: OnceLock<Pool> = OnceLock::new();
+    P.get_or_init(|| {
+        let t = tables();
+        let bases: Vec<PSeg> = t.bases.iter().map(|(k, s)| PSeg { text: k.clone(), seg: *s }).collect();
+        let common: Vec<PSeg> = COMMON.iter().filter_map(|c| t.by_name.get(*c).map(|s| PSeg { text: c.to_string(), seg: *s })).collect();
+        let mut dia1 = vec![];
+        for b in &bases {
+            for d in &t.dias {
+                if let Some(s) = apply_dia(&b.seg, d) {
+                    if s != b.seg { let mut text = b.text.clone(); text.push(d.ch); dia1.push(PSeg { text, seg: s }); }
+                }
+            }
+        }
+        Pool { common, bases, dia1 }
+    })
+}
+
+// ------------------------------------------------------------------------------------------------
+// Words as text
+
+#[derive(Clone, Debug, Serialize, Deserialize, PartialEq)]
+pub struct GSyll { pub segs: Vec<(String, u8)>, pub stress: u8, pub tone: u16 } // (grapheme, length 1..3)
+#[derive(Clone, Debug, Serialize, Deserialize, PartialEq)]
+pub struct GWord { pub sylls: Vec<GSyll> }
+
+impl GWord {
+    pub fn text(&self) -> String {
+        let mut out = String::new();
+        for (i, s) in self.sylls.iter().enumerate() {
+            match s.stress { 1 => out.push('ˈ'), 2 => out.push('ˌ'), _ => if i > 0 { out.push('.') } }
+            for (g, len) in &s.segs { out.push_str(g); for _ in 1..*len { out.push('ː'); } }
+            if s.tone != 0 { out.push_str(&s.tone.to_string()); }
+        }
+        out
+    }
+    pub fn graphemes(&self) -> Vec<&str> { self.sylls.iter().flat_map(|s| s.segs.iter().map(|(g, _)| g.as_str())).collect() }
+}
+
+#[derive(Clone, Copy, Debug)]
+pub struct WordProfile { pub max_sylls: usize, pub max_segs: usize, pub supra: bool, pub rich: u32 /* % of segments from the full pool */, pub long: bool }
+impl WordProfile {
+    pub const PLAIN: WordProfile = WordProfile { max_sylls: 4, max_segs: 3, supra: true, rich: 10, long: true };
+    pub const RICH: WordProfile = WordProfile { max_sylls: 4, max_segs: 4, supra: true, rich: 40, long: true };
+    pub const TINY: WordProfile = WordProfile { max_sylls: 3, max_segs: 2, supra: false, rich: 0, long: false };
+}
+
+const TONES: [u16; 6] = [0, 5, 51, 214, 1234, 3];
+
+pub fn pick_seg<'a>(t: &mut Tape, rich: u32) -> &'a PSeg {
+    let p = pool();
+    if rich > 0 && t.chance(rich, 100) {
+        if t.chance(1, 2) { &p.bases[t.pick(p.bases.len())] } else { &p.dia1[t.pick(p.dia1.len())] }
+    } else { &p.common[t.pick(p.common.len())] }
+}
+
+fn is_vowel(s: &MSeg) -> bool { s.root & 0b101 == 0b001 && s.root & 0b010 != 0 }
+
+pub fn gen_word(t: &mut Tape, prof: WordProfile) -> GWord {
+    let n = 1 + t.weighted(&[3, 5, 3, 1][..prof.max_sylls.min(4)]);
+    let tonal = prof.supra && t.chance(1, 5);
+    let stressed = prof.supra && t.chance(1, 2);
+    let prim = if stressed { t.pick(n) } else { usize::MAX };
+    let mut sylls = vec![];
+    for i in 0..n {
+        let k = 1 + t.weighted(&[3, 6, 3, 1][..prof.max_segs.min(4)]);
+        let mut segs: Vec<(String, u8)> = vec![];
+        // CV-ish bias: choose a vowel slot
+        let vslot = if k == 1 { 0 } else { 1 + t.pick(k - 1).min(k - 2) };
+        for j in 0..k {
+            let mut ps = pick_seg(t, prof.rich);
+            // bias: vowel in the vowel slot, consonant elsewhere (3 tries on the common pool)
+            for _ in 0..3 { if is_vowel(&ps.seg) == (j == vslot) { break } ps = pick_seg(t, 0); }
+            let len = if prof.long && t.chance(1, 8) { if t.chance(1, 4) { 3 } else { 2 } } else { 1 };
+            segs.push((ps.text.clone(), len));
+        }
+        let stress = if i == prim { 1 } else if stressed && t.chance(1, 6) { 2 } else { 0 };
+        let tone = if tonal { TONES[t.pick(TONES.len())] } else { 0 };
+        sylls.push(GSyll { segs, stress, tone });
+    }
+    GWord { sylls }
+}
+
+// ------------------------------------------------------------------------------------------------
+// Rule AST
+
+#[derive(Clone, Copy, Debug, PartialEq, Eq, Serialize, Deserialize)]
+pub enum Sign { Plus, Minus, Alpha(char), NegAlpha(char) }
+
+#[derive(Clone, Copy, Debug, PartialEq, Eq, Serialize, Deserialize)]
+pub enum PName { Feat(usize), Lab, Cor, Dor, Phr, Place, Root, Manner, Lar, Long, Overlong, Stress, SecStress }
+
+impl PName {
+    pub fn name(&self) -> &'static str {
+        match self { PName::Feat(i) => FEATS[*i].0, PName::Lab => "lab", PName::Cor => "cor", PName::Dor => "dor", PName::Phr => "phr", PName::Place => "place",
+                     PName::Root => "root", PName::Manner => "manner", PName::Lar => "lar", PName::Long => "long", PName::Overlong => "overlong",
+                     PName::Stress => "stress", PName::SecStress => "secstress" }
+    }
+    pub fn is_supra(&self) -> bool { matches!(self, PName::Long | PName::Overlong | PName::Stress | PName::SecStress) }
+    pub fn is_length(&self) -> bool { matches!(self, PName::Long | PName::Overlong) }
+    pub fn is_node(&self) -> bool { matches!(self, PName::Lab | PName::Cor | PName::Dor | PName::Phr | PName::Place | PName::Root | PName::Manner | PName::Lar) }
+}
+
+#[derive(Clone, Debug, PartialEq, Default, Serialize, Deserialize)]
+pub struct Params { pub args: Vec<(Sign, PName)>, pub tone: Option<u16> }
+
+#[derive(Clone, Debug, PartialEq, Serialize, Deserialize)]
+pub enum El {
+    Ipa { text: String, params: Option<Params> },
+    Matrix { params: Params, var: Option<u32> },
+    Group { letter: char, params: Option<Params>, var: Option<u32> },
+    Set(Vec<El>),
+    Syll { params: Option<Params>, var: Option<u32> },
+    Struct { items: Vec<El>, params: Option<Params>, var: Option<u32> },
+    Var { n: u32, params: Option<Params> },
+    Ellipsis,
+    SBound,
+    WBound,
+    Opt { items: Vec<El>, min: u32, max: u32, form: u8 },
+}
+
+#[derive(Clone, Debug, PartialEq, Default, Serialize, Deserialize)]
+pub struct Env { pub before: Vec<El>, pub after: Vec<El> }
+
+#[derive(Clone, Debug, PartialEq, Serialize, Deserialize)]
+pub enum EnvItem { One(Env), Set(Vec<Env>) }
+
+#[derive(Clone, Debug, PartialEq, Serialize, Deserialize)]
+pub enum EnvSpec { List(Vec<EnvItem>), Special(Vec<El>) }
+
+#[derive(Clone, Debug, PartialEq, Serialize, Deserialize)]
+pub enum Side { Star, Amp, Terms(Vec<Vec<El>>) }
+
+#[derive(Clone, Debug, PartialEq, Serialize, Deserialize)]
+pub struct Rule { pub input: Side, pub output: Side, pub context: Option<EnvSpec>, pub except: Option<EnvSpec>, pub comment: Option<String> }
+
+// ------------------------------------------------------------------------------------------------
+// Printer
+
+#[derive(Clone, Debug)]
+pub struct Style {
+    pub arrow: &'static str, pub pipe: &'static str, pub star: &'static str, pub ellipsis: &'static str,
+    pub angle: (&'static str, &'static str), pub matrix_space: bool, pub latin_alpha: bool,
+    /// feature-name spelling: (feature index in the synonym table, spelling) overrides; None = canonical
+    pub feat_name: Option<fn(PName) -> String>,
+}
+impl Default for Style {
+    fn default() -> Self { Style { arrow: ">", pipe: "|", star: "*", ellipsis: "...", angle: ("<", ">"), matrix_space: false, latin_alpha: false, feat_name: None } }
+}
+
+const GREEK: &str = "αβγδεζηθικλμνξοπρστυφχψω";
+pub fn alpha_char(i: usize) -> char { GREEK.chars().nth(i % 24).unwrap() }
+fn latin_of(c: char) -> char { match GREEK.chars().position(|g| g == c) { Some(i) => (b'A' + i as u8) as char, None => c } }
+
+impl Style {
+    fn sign(&self, s: &Sign) -> String {
+        match s {
+            Sign::Plus => "+".into(), Sign::Minus => "-".into(),
+            Sign::Alpha(c) => if self.latin_alpha { latin_of(*c).to_string() } else { c.to_string() },
+            Sign::NegAlpha(c) => format!("-{}", if self.latin_alpha { latin_of(*c) } else { *c }),
+        }
+    }
+    pub fn params(&self, p: &Params) -> String {
+        let mut parts: Vec<String> = p.args.iter().map(|(s, n)| {
+            let name = match self.feat_name { Some(f) => f(*n), None => n.name().to_string() };
+            if self.matrix_space { format!("{} {}", self.sign(s), name) } else { format!("{}{}", self.sign(s), name) }
+        }).collect();
+        if let Some(t) = p.tone { parts.push(if self.matrix_space { format!("tone : {t}") } else { format!("tone:{t}") }); }
+        if self.matrix_space { format!("[ {} ]", parts.join(" , ")) } else { format!("[{}]", parts.join(",")) }
+    }
+    fn opt_params(&self, p: &Option<Params>) -> String { match p { Some(p) => format!(":{}", self.params(p)), None => String::new() } }
+    fn var(&self, v: &Option<u32>) -> String { match v { Some(n) => format!("={n}"), None => String::new() } }
+    pub fn el(&self, e: &El) -> String {
+        match e {
+            El::Ipa { text, params } => format!("{text}{}", self.opt_params(params)),
+            El::Matrix { params, var } => format!("{}{}", self.params(params), self.var(var)),
+            El::Group { letter, params, var } => format!("{letter}{}{}", self.opt_params(params), self.var(var)),
+            El::Set(xs) => format!("{{{}}}", xs.iter().map(|x| self.el(x)).collect::<Vec<_>>().join(", ")),
+            El::Syll { params, var } => format!("%{}{}", self.opt_params(params), self.var(var)),
+            El::Struct { items, params, var } => format!("{}{}{}{}{}", self.angle.0, self.els(items), self.angle.1, self.opt_params(params), self.var(var)),
+            El::Var { n, params } => format!("{n}{}", self.opt_params(params)),
+            El::Ellipsis => self.ellipsis.to_string(),
+            El::SBound => "$".into(),
+            El::WBound => "#".into(),
+            El::Opt { items, min, max, form } => {
+                let inner = self.els(items);
+                match (*min, *max, *form) {
+                    (0, 1, 0) => format!("({inner})"),
+                    (0, m, 0) | (0, m, 1) => format!("({inner},{m})"),
+                    (a, b, _) => format!("({inner},{a}:{b})"),
+                }
+            }
+        }
+    }
+    pub fn els(&self, es: &[El]) -> String { es.iter().map(|e| self.el(e)).collect::<Vec<_>>().join(" ") }
+    pub fn env(&self, e: &Env) -> String {
+        let b = self.els(&e.before); let a = self.els(&e.after);
+        format!("{}{}_{}{}", b, if b.is_empty() { "" } else { " " }, if a.is_empty() { "" } else { " " }, a)
+    }
+    pub fn env_spec(&self, s: &EnvSpec) -> String {
+        match s {
+            EnvSpec::Special(xs) => format!("_,{}", self.els(xs)),
+            EnvSpec::List(items) => items.iter().map(|it| match it {
+                EnvItem::One(e) => self.env(e),
+                EnvItem::Set(es) => format!(":{{ {} }}:", es.iter().map(|e| self.env(e)).collect::<Vec<_>>().join(", ")),
+            }).collect::<Vec<_>>().join(", "),
+        }
+    }
+    pub fn side(&self, s: &Side) -> String {
+        match s { Side::Star => self.star.to_string(), Side::Amp => "&".into(),
+                  Side::Terms(ts) => ts.iter().map(|t| self.els(t)).collect::<Vec<_>>().join(", ") }
+    }
+    pub fn rule(&self, r: &Rule) -> String {
+        let mut s = format!("{} {} {}", self.side(&r.input), self.arrow, self.side(&r.output));
+        if let Some(c) = &r.context { s.push_str(" / "); s.push_str(&self.env_spec(c)); }
+        if let Some(x) = &r.except { s.push(' '); s.push_str(self.pipe); s.push(' '); s.push_str(&self.env_spec(x)); }
+        if let Some(c) = &r.comment { s.push_str(" ;;"); s.push_str(c); }
+        s
+    }
+}
+
+pub fn rule_text(r: &Rule) -> String { Style::default().rule(r) }
+
+// ------------------------------------------------------------------------------------------------
+// Groups as the manual defines them (doc.md §Groupings): letter -> list of (feature index, value)
+
+pub fn fidx(name: &str) -> usize { FEATS.iter().position(|f| f.0 == name).expect("feature name") }
+
+pub fn group_def(letter: char) -> Option<Vec<(usize, bool)>> {
+    let f = |n: &str, b: bool| (fidx(n), b);
+    Some(match letter {
+        'C' => vec![f("syll", false)],
+        'O' => vec![f("cons", true), f("son", false), f("syll", false)],
+        'S' => vec![f("cons", true), f("son", true), f("syll", false)],
+        'P' => vec![f("cons", true), f("son", false), f("syll", false), f("delrel", false), f("cont", false)],
+        'F' => vec![f("cons", true), f("son", false), f("syll", false), f("approx", false), f("cont", true)],
+        'L' => vec![f("cons", true), f("son", true), f("syll", false), f("approx", true)],
+        'N' => vec![f("cons", true), f("son", true), f("syll", false), f("approx", false), f("nasal", true)],
+        'G' => vec![f("cons", false), f("son", true), f("syll", false)],
+        'V' => vec![f("cons", false), f("son", true), f("syll", true)],
+        _ => return None,
+    })
+}
+pub const GROUPS: [char; 9] = ['C', 'O', 'S', 'P', 'F', 'L', 'N', 'G', 'V'];
+pub fn group_matches(letter: char, s: &MSeg) -> bool { group_def(letter).map(|d| d.iter().all(|(f, b)| s.matches(*f, *b))).unwrap_or(false) }
+
+// ------------------------------------------------------------------------------------------------
+// Rule generation (word-directed)
+
+#[derive(Clone, Copy, Debug)]
+pub struct RuleProfile {
+    pub structures: bool, pub variables: bool, pub alphas: bool, pub optionals: bool, pub ellipsis: bool,
+    pub sets: bool, pub env_sets: bool, pub condensed: bool, pub syll: bool, pub supra_params: bool,
+    pub insertion: bool, pub deletion: bool, pub metathesis: bool,
+    /// `...` between input elements; `$` as an input element; structures / syllable variables in substitution outputs; outputs longer or shorter than the input
+    pub input_ellipsis: bool, pub input_bound: bool, pub out_struct: bool, pub uneven: bool,
+    /// probability (percent) that an element is derived from a segment of the companion word
+    pub directed: u32,
+}
+impl RuleProfile {
+    pub const FULL: RuleProfile = RuleProfile { structures: true, variables: true, alphas: true, optionals: true, ellipsis: true, sets: true, env_sets: true,
+        condensed: true, syll: true, supra_params: true, insertion: true, deletion: true, metathesis: true,
+        input_ellipsis: true, input_bound: true, out_struct: true, uneven: true, directed: 65 };
+    pub const SEGMENTAL: RuleProfile = RuleProfile { structures: false, variables: false, alphas: false, optionals: true, ellipsis: true, sets: true, env_sets: true,
+        condensed: false, syll: false, supra_params: false, insertion: false, deletion: false, metathesis: false,
+        input_ellipsis: false, input_bound: false, out_struct: false, uneven: false, directed: 70 };
+}
+
+pub struct RuleGen<'a> {
+    pub prof: RuleProfile,
+    pub segs: Vec<(String, MSeg)>, // segments of the companion word (grapheme, value), flattened
+    pub next_var: u32,
+    pub vars_seg: Vec<u32>,   // variables bound to a segment so far
+    pub vars_syll: Vec<u32>,  // variables bound to a syllable so far
+    pub alphas: Vec<(char, PName)>, // alphas bound so far (letter, what it was bound on)
+    pub uses: std::collections::BTreeSet<&'static str>,
+    _p: std::marker::PhantomData<&'a ()>,
+}
+
+#[derive(Clone, Copy, PartialEq, Eq, Debug)]
+pub enum Where { Input, Output, Context }
+
+impl<'a> RuleGen<'a> {
+    pub fn new(prof: RuleProfile, word_segs: Vec<(String, MSeg)>) -> Self {
+        RuleGen { prof, segs: word_segs, next_var: 1, vars_seg: vec![], vars_syll: vec![], alphas: vec![], uses: Default::default(), _p: Default::default() }
+    }
+
+    fn target(&self, t: &mut Tape) -> Option<(String, MSeg)> {
+        if !self.segs.is_empty() && t.chance(self.prof.directed, 100) { Some(self.segs[t.pick(self.segs.len())].clone()) } else { None }
+    }
+
+    /// 1–3 feature arguments; when `like` is given they are true of that segment
+    pub fn feat_args(&mut self, t: &mut Tape, like: Option<&MSeg>, wh: Where) -> Vec<(Sign, PName)> {
+        let n = 1 + t.weighted(&[6, 3, 1]);
+        let mut args: Vec<(Sign, PName)> = vec![];
+        for _ in 0..n {
+            let f = t.pick(26);
+            if args.iter().any(|(_, p)| *p == PName::Feat(f)) { continue }
+            let sign = if self.prof.alphas && t.chance(1, 8) { self.alpha_sign(t, PName::Feat(f), wh) }
+                       else { match like.and_then(|s| s.feat(f)) { Some(v) if wh != Where::Output => if v { Sign::Plus } else { Sign::Minus }, _ => if t.chance(1, 2) { Sign::Plus } else { Sign::Minus } } };
+            if let (Some(s), Sign::Plus | Sign::Minus, true) = (like, sign, wh != Where::Output) { if s.feat(f).is_none() { continue } }
+            args.push((sign, PName::Feat(f)));
+        }
+        if t.chance(1, 10) {
+            let nodes = [PName::Lab, PName::Cor, PName::Dor, PName::Phr, PName::Place];
+            let nd = nodes[t.pick(5)];
+            let present = |s: &MSeg| match nd { PName::Lab => s.lab.is_some(), PName::Cor => s.cor.is_some(), PName::Dor => s.dor.is_some(), PName::Phr => s.phr.is_some(), _ => s.has_place() };
+            let sign = if self.prof.alphas && t.chance(1, 4) { self.alpha_sign(t, nd, wh) }
+                       else { match like { Some(s) if wh != Where::Output => if present(s) { Sign::Plus } else { Sign::Minus }, _ => if nd == PName::Place || t.chance(1, 2) { Sign::Minus } else { Sign::Plus } } };
+            if !(wh == Where::Output && nd == PName::Place && sign == Sign::Plus) { args.push((sign, nd)); self.uses.insert("node"); }
+        }
+        args
+    }
+
+    fn alpha_sign(&mut self, t: &mut Tape, on: PName, wh: Where) -> Sign {
+        self.uses.insert("alpha");
+        // reuse a bound alpha of a compatible kind, or (outside the output) bind a new one
+        let compatible: Vec<char> = self.alphas.iter().filter(|(_, p)| p.is_node() == on.is_node() && (!on.is_node() || *p == on)).map(|(c, _)| *c).collect();
+        if !compatible.is_empty() && (wh == Where::Output || t.chance(1, 2)) {
+            let c = compatible[t.pick(compatible.len())];
+            return if !on.is_node() && t.chance(1, 4) { Sign::NegAlpha(c) } else { Sign::Alpha(c) };
+        }
+        if wh == Where::Output { return if t.chance(1, 2) { Sign::Plus } else { Sign::Minus } }
+        let c = alpha_char(self.alphas.len());
+        self.alphas.push((c, on));
+        Sign::Alpha(c)
+    }
+
+    pub fn supra_args(&mut self, t: &mut Tape, syll_only: bool, wh: Where) -> (Vec<(Sign, PName)>, Option<u16>) {
+        let mut args = vec![]; let mut tone = None;
+        let pm = |t: &mut Tape| if t.chance(1, 2) { Sign::Plus } else { Sign::Minus };
+        match t.weighted(&[4, 2, 3, 2]) {
+            0 => { let s = if self.prof.alphas && t.chance(1, 6) { self.alpha_sign(t, PName::Stress, wh) } else { pm(t) }; args.push((s, PName::Stress)); }
+            1 => args.push((pm(t), PName::SecStress)),
+            2 if !syll_only => { let s = if self.prof.alphas && t.chance(1, 6) { self.alpha_sign(t, PName::Long, wh) } else { pm(t) };
+                                 args.push((s, if t.chance(1, 4) { PName::Overlong } else { PName::Long })); }
+            _ => tone = Some(TONES[t.pick(TONES.len())]),
+        }
+        self.uses.insert("supra");
+        (args, tone)
+    }
+
+    pub fn params(&mut self, t: &mut Tape, like: Option<&MSeg>, wh: Where, allow_empty: bool) -> Params {
+        let mut p = Params::default();
+        if allow_empty && t.chance(1, 10) { return p }
+        if !self.prof.supra_params || t.chance(3, 4) { p.args = self.feat_args(t, like, wh); }
+        if self.prof.supra_params && (p.args.is_empty() || t.chance(1, 5)) {
+            let (a, tone) = self.supra_args(t, false, wh); p.args.extend(a); p.tone = tone;
+        }
+        p
+    }
+
+    fn maybe_var(&mut self, t: &mut Tape, wh: Where, syll: bool) -> Option<u32> {
+        if self.prof.variables && wh != Where::Output && t.chance(1, 6) {
+            let n = self.next_var; self.next_var += 1;
+            if syll { self.vars_syll.push(n) } else { self.vars_seg.push(n) }
+            self.uses.insert("variable");
+            Some(n)
+        } else { None }
+    }
+
+    /// an element that matches (or, in the output, produces) one segment
+    pub fn seg_el(&mut self, t: &mut Tape, wh: Where) -> El {
+        let tgt = self.target(t);
+        let like = tgt.as_ref().map(|x| &x.1);
+        let choice = t.weighted(&[5, 4, 3, if self.prof.variables && !self.vars_seg.is_empty() { 2 } else { 0 }]);
+        match choice {
+            0 => {
+                let text = match &tgt { Some((g, _)) => g.clone(), None => pick_seg(t, 15).text.clone() };
+                let params = if t.chance(1, 5) { Some(self.params(t, None, wh, false)) } else { None };
+                El::Ipa { text, params }
+            }
+            1 => { let params = self.params(t, like, wh, wh != Where::Output); let var = self.maybe_var(t, wh, false); El::Matrix { params, var } }
+            2 if wh != Where::Output => {
+                let cands: Vec<char> = match like { Some(s) => GROUPS.iter().copied().filter(|g| group_matches(*g, s)).collect(), None => GROUPS.to_vec() };
+                let letter = if cands.is_empty() { 'C' } else { cands[t.pick(cands.len())] };
+                let params = if t.chance(1, 4) { Some(self.params(t, like, wh, false)) } else { None };
+                let var = self.maybe_var(t, wh, false);
+                self.uses.insert("group");
+                El::Group { letter, params, var }
+            }
+            2 => { let params = self.params(t, None, wh, false); El::Matrix { params, var: None } }
+            _ => { let n = self.vars_seg[t.pick(self.vars_seg.len())]; let params = if t.chance(1, 5) { Some(self.params(t, None, Where::Output, false)) } else { None }; El::Var { n, params } }
+        }
+    }
+
+    pub fn syll_el(&mut self, t: &mut Tape, wh: Where) -> El {
+        self.uses.insert("syllable");
+        let params = if t.chance(1, 2) { let (a, tone) = self.supra_args(t, true, wh); Some(Params { args: a, tone }) } else { None };
+        let var = self.maybe_var(t, wh, true);
+        El::Syll { params, var }
+    }
+
+    pub fn struct_el(&mut self, t: &mut Tape, wh: Where) -> El {
+        self.uses.insert("structure");
+        let n = 1 + t.pick(3);
+        let mut items = vec![];
+        let lead = wh != Where::Output && t.chance(1, 3);
+        if lead { items.push(El::Ellipsis); }
+        for _ in 0..n {
+            let e = if wh == Where::Output { let text = match self.target(t) { Some((g, _)) => g, None => pick_seg(t, 10).text.clone() }; El::Ipa { text, params: None } }
+                    else { let save = self.prof.variables; self.prof.variables = false; let e = self.seg_el(t, wh); self.prof.variables = save; e };
+            items.push(e);
+        }
+        if wh != Where::Output && !lead && t.chance(1, 3) { items.push(El::Ellipsis); }
+        let params = if t.chance(1, 4) { let (a, tone) = self.supra_args(t, true, wh); Some(Params { args: a, tone }) } else { None };
+        let var = self.maybe_var(t, wh, true);
+        El::Struct { items, params, var }
+    }
+
+    pub fn set_el(&mut self, t: &mut Tape, wh: Where, size: usize) -> El {
+        self.uses.insert("set");
+        let mut xs = vec![];
+        for _ in 0..size {
+            let save = (self.prof.variables, self.prof.alphas); self.prof.variables = false; self.prof.alphas = false;
+            let e = if wh == Where::Context && t.chance(1, 8) { if t.chance(1, 2) { El::SBound } else { El::WBound } } else { self.seg_el(t, wh) };
+            self.prof.variables = save.0; self.prof.alphas = save.1;
+            xs.push(e);
+        }
+        El::Set(xs)
+    }
+
+    /// one element of an input term
+    pub fn input_el(&mut self, t: &mut Tape) -> El {
+        let w = [10, if self.prof.sets { 2 } else { 0 }, if self.prof.syll { 2 } else { 0 }, if self.prof.structures { 1 } else { 0 }, if self.prof.syll && self.prof.input_bound { 1 } else { 0 }];
+        match t.weighted(&w) {
+            0 => self.seg_el(t, Where::Input),
+            1 => { let n = 2 + t.pick(2); self.set_el(t, Where::Input, n) }
+            2 => self.syll_el(t, Where::Input),
+            3 => self.struct_el(t, Where::Input),
+            _ => El::SBound,
+        }
+    }
+
+    /// one element of an environment side
+    pub fn env_el(&mut self, t: &mut Tape) -> El {
+        let p = self.prof;
+        let w = [10, if p.sets { 2 } else { 0 }, if p.syll { 2 } else { 0 }, if p.structures { 1 } else { 0 }, 2, if p.optionals { 2 } else { 0 }, if p.ellipsis { 1 } else { 0 },
+                 if p.variables && !self.vars_syll.is_empty() { 1 } else { 0 }];
+        match t.weighted(&w) {
+            0 => self.seg_el(t, Where::Context),
+            1 => { let n = 2 + t.pick(2); self.set_el(t, Where::Context, n) }
+            2 => self.syll_el(t, Where::Context),
+            3 => self.struct_el(t, Where::Context),
+            4 => El::SBound,
+            5 => {
+                self.uses.insert("optional");
+                let k = 1 + t.weighted(&[5, 1]);
+                let mut items = vec![];
+                for _ in 0..k { let save = self.prof.variables; self.prof.variables = false; items.push(if t.chance(1, 10) { El::SBound } else { self.seg_el(t, Where::Context) }); self.prof.variables = save; }
+                let (min, max, form) = match t.weighted(&[3, 3, 2, 2]) { 0 => (0, 1, 0), 1 => (0, 0, 1), 2 => (0, 1 + t.pick(3) as u32, 1), _ => { let a = t.pick(3) as u32; (a, a + 1 + t.pick(2) as u32, 2) } };
+                El::Opt { items, min, max, form }
+            }
+            6 => { self.uses.insert("ellipsis"); El::Ellipsis }
+            _ => { let n = self.vars_syll[t.pick(self.vars_syll.len())]; El::Var { n, params: None } }
+        }
+    }
+
+    pub fn env(&mut self, t: &mut Tape, allow_empty: bool) -> Env {
+        let mut e = Env::default();
+        let shape = t.weighted(&[3, 3, 3, if allow_empty { 1 } else { 0 }]); // before only, after only, both, empty
+        let nb = if shape == 0 || shape == 2 { 1 + t.weighted(&[6, 3, 1]) } else { 0 };
+        let na = if shape == 1 || shape == 2 { 1 + t.weighted(&[6, 3, 1]) } else { 0 };
+        for _ in 0..nb { let x = self.env_el(t); e.before.push(x); }
+        for _ in 0..na { let x = self.env_el(t); e.after.push(x); }
+        // ellipsis / optional need something on their far side to be meaningful; word boundaries only at the periphery
+        if t.chance(1, 6) { e.before.insert(0, El::WBound); }
+        if t.chance(1, 6) { e.after.push(El::WBound); }
+        e
+    }
+
+    pub fn env_spec(&mut self, t: &mut Tape, n_terms: usize, insertion: bool) -> EnvSpec {
+        if !insertion && self.prof.condensed && t.chance(1, 12) {
+            self.uses.insert("special_env");
+            let k = 1 + t.pick(2);
+            let mut xs = vec![];
+            if t.chance(1, 3) { xs.push(El::WBound); }
+            for _ in 0..k { let save = (self.prof.variables, self.prof.ellipsis, self.prof.optionals); self.prof.variables = false; self.prof.ellipsis = false; self.prof.optionals = false;
+                            let x = self.env_el(t); self.prof.variables = save.0; self.prof.ellipsis = save.1; self.prof.optionals = save.2; xs.push(x); }
+            return EnvSpec::Special(xs);
+        }
+        let n = if n_terms > 1 && t.chance(1, 2) { n_terms } else { 1 };
+        let mut items = vec![];
+        for _ in 0..n {
+            if !insertion && self.prof.env_sets && t.chance(1, 8) {
+                self.uses.insert("env_set");
+                let k = 2 + t.pick(2);
+                let mut es = vec![]; for _ in 0..k { let e = self.env(t, false); es.push(e); }
+                items.push(EnvItem::Set(es));
+            } else { let e = self.env(t, false); items.push(EnvItem::One(e)); }
+        }
+        EnvSpec::List(items)
+    }
+
+    pub fn output_for(&mut self, t: &mut Tape, input: &[El]) -> Vec<El> {
+        let mut out = vec![];
+        for e in input {
+            match e {
+                El::Ellipsis => {}
+                El::SBound => if t.chance(4, 5) { out.push(El::SBound) },
+                El::Set(xs) => {
+                    if t.chance(3, 4) { let n = xs.len(); let s = self.set_el(t, Where::Output, n); out.push(s); }
+                    else { let x = self.seg_el(t, Where::Output); out.push(x); }
+                }
+                El::Syll { .. } | El::Struct { .. } => {
+                    match t.weighted(&[5, 2, 1]) {
+                        0 => { let (a, tone) = self.supra_args(t, true, Where::Output); out.push(El::Matrix { params: Params { args: a, tone }, var: None }); }
+                        1 if self.prof.structures && self.prof.out_struct => { let s = self.struct_el(t, Where::Output); out.push(s); }
+                        _ => if !self.vars_syll.is_empty() && self.prof.out_struct { let n = self.vars_syll[t.pick(self.vars_syll.len())]; out.push(El::Var { n, params: None }) } else { let (a, tone) = self.supra_args(t, true, Where::Output); out.push(El::Matrix { params: Params { args: a, tone }, var: None }); },
+                    }
+                }
+                _ => { let x = self.seg_el(t, Where::Output); out.push(x); }
+            }
+        }
+        // occasionally shorter or longer than the input
+        if self.prof.uneven && out.len() > 1 && t.chance(1, 8) { out.pop(); }
+        if self.prof.uneven && t.chance(1, 8) { let x = if t.chance(1, 4) { El::SBound } else { let text = pick_seg(t, 5).text.clone(); El::Ipa { text, params: None } }; out.push(x); }
+        if out.is_empty() { let x = self.seg_el(t, Where::Output); out.push(x); }
+        out
+    }
+
+    pub fn insertion_output(&mut self, t: &mut Tape) -> Vec<El> {
+        let n = 1 + t.weighted(&[6, 2, 1]);
+        let mut out = vec![];
+        for _ in 0..n {
+            let w = [8, 2, if self.prof.syll { 1 } else { 0 }, if self.prof.structures { 1 } else { 0 }, if self.prof.variables && !(self.vars_seg.is_empty() && self.vars_syll.is_empty()) { 3 } else { 0 }];
+            out.push(match t.weighted(&w) {
+                0 => { let text = match self.target(t) { Some((g, _)) => g, None => pick_seg(t, 10).text.clone() }; let params = if t.chance(1, 6) { Some(self.params(t, None, Where::Output, false)) } else { None }; El::Ipa { text, params } }
+                1 => El::SBound,
+                2 => self.syll_el(t, Where::Output),
+                3 => self.struct_el(t, Where::Output),
+                _ => { let all: Vec<u32> = self.vars_seg.iter().chain(self.vars_syll.iter()).copied().collect(); El::Var { n: all[t.pick(all.len())], params: None } }
+            });
+        }
+        out
+    }
+
+    pub fn rule(&mut self, t: &mut Tape) -> Rule {
+        let p = self.prof;
+        let kind = t.weighted(&[10, if p.deletion { 3 } else { 0 }, if p.insertion { 3 } else { 0 }, if p.metathesis { 2 } else { 0 }]);
+        let n_terms = if p.condensed && t.chance(1, 8) { self.uses.insert("condensed"); 2 + t.pick(2) } else { 1 };
+        let mut gen_input = |g: &mut Self, t: &mut Tape, min: usize| -> Vec<El> {
+            let n = (1 + t.weighted(&[6, 3, 1])).max(min);
+            let mut v = vec![];
+            for i in 0..n {
+                let e = g.input_el(t);
+                v.push(e);
+                if g.prof.ellipsis && g.prof.input_ellipsis && i + 1 < n && t.chance(1, 10) { v.push(El::Ellipsis); g.uses.insert("ellipsis"); }
+            }
+            v
+        };
+        match kind {
+            2 => {
+                // insertion: the context comes first so that variables / alphas bound there can be used in the output
+                let ctx = Some(self.env_spec(t, 1, true));
+                let except = if t.chance(1, 6) { Some(self.env_spec(t, 1, true)) } else { None };
+                let out = self.insertion_output(t);
+                Rule { input: Side::Star, output: Side::Terms(vec![out]), context: ctx, except, comment: None }
+            }
+            _ => {
+                let mut inputs = vec![];
+                for _ in 0..n_terms { let v = gen_input(self, t, if kind == 3 { 2 } else { 1 }); inputs.push(v); }
+                let has_ctx = t.chance(2, 3);
+                let ctx = if has_ctx { Some(self.env_spec(t, n_terms, false)) } else { None };
+                let except = if t.chance(1, 5) { Some(self.env_spec(t, n_terms, false)) } else { None };
+                let output = match kind {
+                    1 => Side::Star,
+                    3 => Side::Amp,
+                    _ => {
+                        let k = if self.prof.uneven && n_terms > 1 && t.chance(1, 2) { 1 } else { n_terms };
+                        let mut outs = vec![];
+                        for i in 0..k { let o = self.output_for(t, &inputs[i.min(inputs.len() - 1)].clone()); outs.push(o); }
+                        Side::Terms(outs)
+                    }
+                };
+                Rule { input: Side::Terms(inputs), output, context: ctx, except, comment: None }
+            }
+        }
+    }
+}
+
+/// Convenience: parse a generated word with asca (guarded) and return (text, structural word, flattened (grapheme-ish, value) list)
+pub fn word_segs(w: &asca::verif::Word) -> Vec<(String, MSeg)> {
+    let t = tables();
+    MWord::from_asca(w).flat().into_iter().filter_map(|s| t.by_value.get(&s).map(|g| (g.clone(), s))).collect()
+}
+
+pub fn rule_kind(r: &Rule) -> &'static str {
+    match (&r.input, &r.output) { (Side::Star, _) => "insertion", (_, Side::Star) => "deletion", (_, Side::Amp) => "metathesis", _ => "substitution" }
+}
